@@ -510,6 +510,27 @@ def check(prop, tier, seed, replay=None):
     stats = {'histories': 0, 'requests': 0, 'by_kind': {}, 'by_status': {}, 'restarts': 0, 'rejected': 0, 'accepted_mutations': 0, 'model_steps': 0}
     samples = []
     ok, msg = build_server()
+    if ok and replay is not None and 'steps' in replay:
+        # re-execute the recorded requests against a fresh server and show what it answers now
+        srv = Server()
+        rc = 0
+        try:
+            srv.start()
+            for i, st in enumerate(replay['steps']):
+                o = observe(srv, st)
+                mark = ''
+                if i < len(replay.get('observed_status', [])) and replay['observed_status'][i] != o[0]:
+                    mark = '   (recorded: %s)' % replay['observed_status'][i]
+                if i == replay.get('step_index'):
+                    mark += '   <== reported step: ' + replay.get('what', '')[:160]
+                    if o[0] == 'dropped':
+                        rc = 1
+                print('%3d %-7s %-60s -> %s%s' % (i, st['method'], (st['path'] + ' ' + (st['body'] or ''))[:60], o[0], mark))
+                if o[0] == 'dropped' and not srv.alive():
+                    srv.start()
+        finally:
+            srv.cleanup()
+        return rc
     if not ok:
         chk.violation({'engine': 'rest', 'what': 'server does not build: ' + msg[-300:], 'signature': 'rest:nobuild'})
         return chk.finish()
